@@ -12,23 +12,24 @@ structure PlainRel (st st' : St) : Prop where
   cs : st'.cs = st.cs
   fields : ∀ i s, (st'.side i s).oid = (st.side i s).oid ∧ (st'.side i s).path = (st.side i s).path ∧
     (st'.side i s).changed = (st.side i s).changed
+  mov : st'.moving = st.moving
 
-theorem PlainRel.refl (st : St) : PlainRel st st := ⟨rfl, fun _ => rfl, fun _ => rfl, rfl, fun _ _ => ⟨rfl, rfl, rfl⟩⟩
+theorem PlainRel.refl (st : St) : PlainRel st st := ⟨rfl, fun _ => rfl, fun _ => rfl, rfl, fun _ _ => ⟨rfl, rfl, rfl⟩, rfl⟩
 theorem PlainRel.trans {st st' st''} (h1 : PlainRel st st') (h2 : PlainRel st' st'') : PlainRel st st'' :=
   ⟨h2.len.trans h1.len, fun s => (h2.oids s).trans (h1.oids s), fun s => (h2.paths s).trans (h1.paths s), h2.cs.trans h1.cs,
    fun i s => ⟨(h2.fields i s).1.trans (h1.fields i s).1, (h2.fields i s).2.1.trans (h1.fields i s).2.1,
-     (h2.fields i s).2.2.trans (h1.fields i s).2.2⟩⟩
+     (h2.fields i s).2.2.trans (h1.fields i s).2.2⟩, h2.mov.trans h1.mov⟩
 
 theorem PlainRel.inv {st st'} (h : PlainRel st st') (hi : Inv st) : Inv st' :=
   ⟨hi.1.congr h.len h.oids h.paths (fun i s => ⟨(h.fields i s).1, (h.fields i s).2.1⟩),
    hi.2.congr (fun i hi' => h.cs ▸ hi') (fun i s => ⟨(h.fields i s).1, (h.fields i s).2.2⟩)⟩
 
 theorem plainRel_dirtyAdd (st : St) (j : Nat) : PlainRel st (st.dirtyAdd j) :=
-  ⟨rfl, fun s => by simp, fun s => by simp, rfl, fun _ _ => ⟨rfl, rfl, rfl⟩⟩
+  ⟨rfl, fun s => by simp, fun s => by simp, rfl, fun _ _ => ⟨rfl, rfl, rfl⟩, rfl⟩
 
 theorem plainRel_modSide (st : St) (e : Nat) (s : Sd) (f : Side → Side)
     (hf : ∀ x, (f x).oid = x.oid ∧ (f x).path = x.path ∧ (f x).changed = x.changed) : PlainRel st (st.modSide e s f) := by
-  refine ⟨by simp, fun s => by simp, fun s => by simp, rfl, fun i s' => ?_⟩
+  refine ⟨by simp, fun s => by simp, fun s => by simp, rfl, fun i s' => ?_, rfl⟩
   rw [side_modSide]
   by_cases hh : i = e ∧ s' = s ∧ e < st.ents.length
   · rw [if_pos hh]; obtain ⟨a, b, _⟩ := hh; subst a; subst b; exact hf _
@@ -40,7 +41,7 @@ theorem plainRel_modEnt (st : St) (e : Nat) (f : Entry → Entry) (hf : ∀ x s,
     by_cases hh : i = e ∧ e < st.ents.length
     · rw [if_pos hh]; obtain ⟨a, _⟩ := hh; subst a; exact hf _ s
     · rw [if_neg hh]
-  exact ⟨by simp, fun s => by simp, fun s => by simp, rfl, fun i s => by rw [hs]; exact ⟨rfl, rfl, rfl⟩⟩
+  exact ⟨by simp, fun s => by simp, fun s => by simp, rfl, fun i s => by rw [hs]; exact ⟨rfl, rfl, rfl⟩, rfl⟩
 
 theorem PlainRel.dirtyAdd {st st'} (h : PlainRel st st') (j : Nat) : PlainRel st (st'.dirtyAdd j) := h.trans (plainRel_dirtyAdd _ _)
 theorem PlainRel.modSide {st st'} (h : PlainRel st st') (e : Nat) (s : Sd) (f : Side → Side)
@@ -102,24 +103,11 @@ theorem frame_syncPath (st : St) (e : Nat) (s : Sd) (v : Option Path.Str) :
   · rw [if_pos hh]; obtain ⟨a, b, _⟩ := hh; subst a; subst b; exact ⟨rfl, rfl⟩
   · rw [if_neg hh]; exact ⟨rfl, rfl⟩
 
-/-! ### moving a directory whose kids are not directories -/
+/-! ### moving a directory with its kids (fix C: entries on the `_kids_moving` stack are nobody's kid) -/
 
 theorem kidRel_congr (cfg : Cfg) {st st' : St} (s : Sd) (prior : Path.Str) (i : Nat)
     (h : (st'.side i s).path = (st.side i s).path) : kidRel cfg st' s prior i = kidRel cfg st s prior i := by
   unfold kidRel; rw [h]
-
-/-- no directory entry other than `e` lies strictly beneath `prior` on side `s` -/
-def Leaves (cfg : Cfg) (st : St) (s : Sd) (e : Nat) (prior : Path.Str) : Prop :=
-  ∀ d, d ≠ e → (st.side d s).otype = .dir → kidRel cfg st s prior d = none
-
-theorem Leaves.frame {cfg st st' s e prior} (h : Leaves cfg st s e prior) {t : Option (Nat × Sd)} (hf : Frame t st st')
-    (ht : ∀ d, t = some (d, s) → d = e ∨ (st.side d s).otype ≠ .dir) : Leaves cfg st' s e prior := by
-  intro d hd hot
-  have hot' : (st.side d s).otype = .dir := by rw [← (hf.2 d s).1]; exact hot
-  have hp : (st'.side d s).path = (st.side d s).path :=
-    (hf.2 d s).2 (fun heq => (ht d heq.symm).elim (fun h => hd h) (fun h => h hot'))
-  rw [kidRel_congr cfg s prior d hp]
-  exact h d hd hot'
 
 /-- `ent[side].path = v` for an entry that is not a directory (or has no previous path): no kids are moved -/
 theorem sideSet_path_leaf_tr (cfg : Cfg) (n : Nat) (e : Nat) (s : Sd) (v : Option Path.Str) (st0 : St)
@@ -153,147 +141,194 @@ theorem sideSet_syncPath_tr (cfg : Cfg) (n : Nat) (e : Nat) (s : Sd) (v : Option
       ((PlainRel.refl st).dirtyAdd _).modSide _ _ _ (by intro x; exact ⟨rfl, rfl, rfl⟩)
     exact ⟨fun _ _ => ⟨hpr.inv hi, frame_syncPath ..⟩, fun x hx => by cases hx⟩
 
-/-- one kid that is not a directory is moved (state.py:855-876) -/
-theorem moveKid_tr (cfg : Cfg) (n : Nat) (s : Sd) (sub : Nat) (prior path rel : Path.Str) (st1 : St) :
-    Tr (fun st => st = st1 ∧ Inv st ∧ sub < st.ents.length ∧ (st.side sub s).otype ≠ .dir)
-      (moveKid (sideSet cfg n) cfg s sub prior path rel)
-      (fun _ st' => Inv st' ∧ Frame (some (sub, s)) st1 st') (fun st' => Inv st' ∧ Frame (some (sub, s)) st1 st') := by
-  apply Tr.with_pre (φ := sub < st1.ents.length ∧ (st1.side sub s).otype ≠ .dir) (fun st ⟨h0, _, h2, h3⟩ => h0 ▸ ⟨h2, h3⟩)
-  rintro ⟨hlt1, hot1⟩
+/-- the paths of the entries in `M` are untouched -/
+def KeepPaths (M : List Nat) (st st' : St) : Prop := ∀ m ∈ M, ∀ s, (st'.side m s).path = (st.side m s).path
+
+theorem KeepPaths.refl (M) (st : St) : KeepPaths M st st := fun _ _ _ => rfl
+theorem KeepPaths.trans {M st st' st''} (h1 : KeepPaths M st st') (h2 : KeepPaths M st' st'') : KeepPaths M st st'' :=
+  fun m hm s => (h2 m hm s).trans (h1 m hm s)
+theorem KeepPaths.mono {M M' st st'} (h : KeepPaths M st st') (hs : ∀ m ∈ M', m ∈ M) : KeepPaths M' st st' :=
+  fun m hm s => h m (hs m hm) s
+theorem Frame.keep {t st st'} (h : Frame t st st') (M : List Nat) (ht : ∀ e s, t = some (e, s) → e ∉ M) : KeepPaths M st st' :=
+  fun m hm s => (h.2 m s).2 (fun heq => ht m s heq.symm hm)
+
+/-- `Tr` with the stack recorded -/
+theorem Tr.with_mov {α} {P : St → Prop} {m : M α} {Q : α → St → Prop} {E : St → Prop} (h : Tr P m Q E) (hm : Mov m) (M : List Nat) :
+    Tr (fun st => P st ∧ st.moving = M) m (fun a st' => Q a st' ∧ st'.moving = M) (fun st' => E st' ∧ st'.moving = M) := by
+  intro st ⟨hp, hM⟩
+  have := h st hp
+  have hmv : (m st).2.moving = M := (hm st).trans hM
+  exact ⟨fun a ha => ⟨this.1 a ha, hmv⟩, fun x hx hne => ⟨this.2 x hx hne, hmv⟩⟩
+
+theorem inv_setMoving {st : St} (hi : Inv st) (x : List Nat) : Inv { st with moving := x } :=
+  ⟨hi.1.congr rfl (fun s => by cases s <;> rfl) (fun s => by cases s <;> rfl) (fun _ _ => ⟨rfl, rfl⟩),
+   hi.2.congr (fun _ h => h) (fun _ _ => ⟨rfl, rfl⟩)⟩
+
+/-- what a hooked assignment guarantees: the invariant, the number of entries, and the paths of the folders whose kids are
+    being moved -/
+def GoodPost (st : St) (st' : St) : Prop := Inv st' ∧ st'.ents.length = st.ents.length ∧ KeepPaths st.moving st st'
+
+def Good (cfg : Cfg) (n : Nat) : Prop :=
+  ∀ e s fv st, Inv st → e < st.ents.length → e ∉ st.moving →
+    Tr (fun st' => st' = st) (sideSet cfg n e s fv) (fun _ st' => GoodPost st st') (GoodPost st)
+
+/-- loop invariant of `_update_kids` -/
+def KidsJ (L : Nat) (M : List Nat) (st0 : St) (st : St) : Prop :=
+  Inv st ∧ st.ents.length = L ∧ st.moving = M ∧ KeepPaths M st0 st
+
+/-- one kid is moved (state.py:869-890): its id (path-id providers), its path — recursively, `_update_kids` of the kid —, its sync_path -/
+theorem moveKid_tr (cfg : Cfg) (n : Nat) (hG : Good cfg n) (s : Sd) (sub : Nat) (prior path rel : Path.Str) (L : Nat) (M : List Nat)
+    (st0 : St) (hsub : sub ∉ M) (hlt : sub < L) :
+    Tr (KidsJ L M st0) (moveKid (sideSet cfg n) cfg s sub prior path rel) (fun _ => KidsJ L M st0) (KidsJ L M st0) := by
   unfold moveKid
   simp only
-  refine Tr.bind (R := fun _ st' => Inv st' ∧ Frame none st1 st') ?_ ?_
+  -- every step is a hooked assignment on `sub`
+  have step : ∀ fv, Tr (KidsJ L M st0) (sideSet cfg n sub s fv) (fun _ => KidsJ L M st0) (KidsJ L M st0) := by
+    intro fv
+    apply Tr.intro_st; intro st1
+    apply Tr.with_pre (φ := KidsJ L M st0 st1) (fun st (h : st = st1 ∧ _) => h.1 ▸ h.2)
+    rintro ⟨hi1, hl1, hm1, hk1⟩
+    have hg := hG sub s fv st1 hi1 (hl1 ▸ hlt) (hm1 ▸ hsub)
+    refine ((hg.with_mov (movF_sideSet cfg n sub s fv) M)).conseq ?_ ?_ ?_
+    · rintro st ⟨rfl, _⟩; exact ⟨rfl, hm1⟩
+    · rintro _ st' ⟨⟨h1, h2, h3⟩, h4⟩; exact ⟨h1, h2.trans hl1, h4, hk1.trans (hm1 ▸ h3)⟩
+    · rintro st' ⟨⟨h1, h2, h3⟩, h4⟩; exact ⟨h1, h2.trans hl1, h4, hk1.trans (hm1 ▸ h3)⟩
+  refine Tr.bind (R := fun _ => KidsJ L M st0) ?_ (fun _ => ?_)
   · apply Tr.when
     · intro _
-      cases cfg.info s (Path.join (cfg.pc s) [path, rel]) with
-      | none => exact Tr.pure (fun st ⟨h0, h1, _, _⟩ => ⟨h1, h0 ▸ Frame.refl _ _⟩)
-      | some o =>
-        simp only
-        refine (sideSet_oid_tr cfg n noX sub s o st1).conseq ?_ ?_ (fun _ h => h.elim)
-        · rintro st ⟨rfl, h1, h2, _⟩; exact ⟨rfl, h1.1, h1.2, h2⟩
-        · intro _ st' ⟨h1, h2, h3⟩; exact ⟨⟨h1, h2⟩, h3⟩
-    · rintro _ st ⟨h0, h1, _, _⟩; exact ⟨h1, h0 ▸ Frame.refl _ _⟩
-  · intro _
-    refine Tr.bind (R := fun _ st' => Inv st' ∧ Frame (some (sub, s)) st1 st') ?_ ?_
-    · apply Tr.intro_st; intro st2
-      apply Tr.with_pre (φ := Inv st2 ∧ Frame none st1 st2) (fun st ⟨h0, h⟩ => h0 ▸ h)
-      rintro ⟨hi2, hf2⟩
-      refine (sideSet_path_leaf_tr cfg n sub s _ st2 hi2 (by rw [hf2.1]; exact hlt1)
-        (Or.inl (by rw [(hf2.2 sub s).1]; exact hot1))).conseq ?_ ?_ ?_
-      · rintro st ⟨h0, _⟩; exact h0
-      · intro _ st' ⟨h1, h2⟩; exact ⟨h1, hf2.weaken.trans h2⟩
-      · intro st' ⟨h1, h2⟩; exact ⟨h1, hf2.weaken.trans h2⟩
-    · intro _
-      unfold fixSyncPath
-      apply Tr.getSt_bind; intro st3
-      have hpure : Tr (fun st => st = st3 ∧ Inv st ∧ Frame (some (sub, s)) st1 st) (Pure.pure () : M Unit)
-          (fun _ st' => Inv st' ∧ Frame (some (sub, s)) st1 st') (fun st' => Inv st' ∧ Frame (some (sub, s)) st1 st') :=
-        Tr.pure (fun st ⟨_, h⟩ => h)
       split
-      · split
-        · apply Tr.with_pre (φ := Inv st3 ∧ Frame (some (sub, s)) st1 st3) (fun st ⟨h0, h⟩ => h0 ▸ h)
-          rintro ⟨hi3, hf3⟩
-          refine (sideSet_syncPath_tr cfg n sub s _ st3 hi3).conseq ?_ ?_ (fun _ h => h.elim)
-          · rintro st ⟨h0, _⟩; exact h0
-          · intro _ st' ⟨h1, h2⟩; exact ⟨h1, hf3.trans h2.weaken⟩
-        · exact hpure
-      · exact hpure
+      · exact step _
+      · exact Tr.pure (fun _ h => h)
+    · exact fun _ _ h => h
+  refine Tr.bind (R := fun _ => KidsJ L M st0) (step _) (fun _ => ?_)
+  unfold fixSyncPath
+  apply Tr.getSt_bind; intro st3
+  split
+  · split
+    · exact (step _).pre (fun _ h => h.2)
+    · exact Tr.pure (fun _ h => h.2)
+  · exact Tr.pure (fun _ h => h.2)
 
-/-- the loop invariant of `_update_kids` when no kid is a directory -/
-def KidsJ (cfg : Cfg) (s : Sd) (e : Nat) (prior pth : Path.Str) (L : Nat) (st : St) : Prop :=
-  Inv st ∧ (st.ents.length = L ∧ e < st.ents.length) ∧ (st.side e s).path = some pth ∧ Leaves cfg st s e prior
-
-theorem kidsLoop_tr (cfg : Cfg) (n : Nat) (s : Sd) (e : Nat) (prior pth : Path.Str) (L : Nat) :
-    ∀ l : List Nat, Tr (KidsJ cfg s e prior pth L) (kidsLoop (sideSet cfg n) cfg s e prior pth l)
-      (fun _ => KidsJ cfg s e prior pth L) (KidsJ cfg s e prior pth L)
+theorem kidsLoop_tr (cfg : Cfg) (n : Nat) (hG : Good cfg n) (s : Sd) (prior pth : Path.Str) (L : Nat) (M : List Nat) (st0 : St) :
+    ∀ l : List Nat, Tr (KidsJ L M st0) (kidsLoop (sideSet cfg n) cfg s prior pth l) (fun _ => KidsJ L M st0) (KidsJ L M st0)
   | [] => Tr.pure (fun _ h => h)
   | sub :: rest => by
     unfold kidsLoop
     apply Tr.getSt_bind; intro st1
     cases hk : kidRel cfg st1 s prior sub with
-    | none => exact (kidsLoop_tr cfg n s e prior pth L rest).pre (fun st ⟨_, h⟩ => h)
+    | none => exact (kidsLoop_tr cfg n hG s prior pth L M st0 rest).pre (fun st h => h.2)
     | some rel =>
       simp only
-      by_cases hse : sub = e
-      · simp only [hse, if_true]
-        exact (kidsLoop_tr cfg n s e prior pth L rest).pre (fun st ⟨_, h⟩ => h)
-      · simp only [hse, if_false]
-        apply Tr.with_pre (φ := KidsJ cfg s e prior pth L st1) (fun st ⟨h0, h⟩ => h0 ▸ h)
-        rintro ⟨hi1, ⟨hL1, hlt1⟩, hp1, hl1⟩
-        have hsublt : sub < st1.ents.length := by
+      apply Tr.with_pre (φ := KidsJ L M st0 st1) (fun st (h : st = st1 ∧ _) => h.1 ▸ h.2)
+      rintro ⟨hi1, hl1, hm1, hk1⟩
+      by_cases hc : st1.moving.contains sub = true
+      · simp only [hc, if_true]
+        exact (kidsLoop_tr cfg n hG s prior pth L M st0 rest).pre (fun st h => h.2)
+      · simp only [hc, Bool.false_eq_true, if_false]
+        have hsub : sub ∉ M := by
+          intro hmem; apply hc; rw [hm1]; simpa using hmem
+        have hsublt : sub < L := by
+          rw [← hl1]
           apply Decidable.byContradiction; intro hge
           unfold kidRel at hk; rw [path_oob st1 sub s hge] at hk; cases hk
-        have hsubot : (st1.side sub s).otype ≠ .dir := fun hd => by rw [hl1 sub hse hd] at hk; cases hk
-        refine Tr.bind (R := fun _ => KidsJ cfg s e prior pth L) ?_ (fun _ => kidsLoop_tr cfg n s e prior pth L rest)
-        refine (moveKid_tr cfg n s sub prior pth rel st1).conseq ?_ ?_ ?_
-        · rintro st ⟨h0, _⟩; exact ⟨h0, h0 ▸ hi1, h0 ▸ hsublt, h0 ▸ hsubot⟩
-        · intro _ st' ⟨h1, h2⟩
-          refine ⟨h1, ⟨by rw [h2.1]; exact hL1, by rw [h2.1]; exact hlt1⟩, ?_, hl1.frame h2 (fun d hd => ?_)⟩
-          · rw [(h2.2 e s).2 (fun heq => by cases heq; exact hse rfl)]; exact hp1
-          · cases hd; exact Or.inr hsubot
-        · intro st' ⟨h1, h2⟩
-          refine ⟨h1, ⟨by rw [h2.1]; exact hL1, by rw [h2.1]; exact hlt1⟩, ?_, hl1.frame h2 (fun d hd => ?_)⟩
-          · rw [(h2.2 e s).2 (fun heq => by cases heq; exact hse rfl)]; exact hp1
-          · cases hd; exact Or.inr hsubot
+        exact Tr.bind (R := fun _ => KidsJ L M st0) ((moveKid_tr cfg n hG s sub prior pth rel L M st0 hsub hsublt).pre (fun st h => h.2))
+          (fun _ => kidsLoop_tr cfg n hG s prior pth L M st0 rest)
 
-/-- guard of the theorems: when a directory entry that already has a path gets a new path, no *other* directory
-    entry lies strictly beneath its current path on that side (its kids are leaves) -/
-def PathGuard (cfg : Cfg) (st : St) (e : Nat) (s : Sd) : FV → Prop
-  | .path v => truthyS v = true → (st.side e s).otype = .dir → ∀ pr, (st.side e s).path = some pr → Leaves cfg st s e pr
-  | _ => True
+@[simp] theorem moving_popPrior (st : St) (s e) : (popPrior st s e).moving = st.moving := by unfold popPrior; split <;> simp
+@[simp] theorem moving_putPath (st : St) (s e pth) : (putPath st s e pth).moving = st.moving := by simp [putPath]
+@[simp] theorem moving_pathFin (st : St) (e s v) : (pathFin st e s v).moving = st.moving := by simp [pathFin]
 
-/-- `ent[side].<attr> = v` keeps the invariant: on a normal return and on every exception except fuel exhaustion -/
-theorem sideSet_inv (cfg : Cfg) (n : Nat) (e : Nat) (s : Sd) (fv : FV) (st : St) (hi : Inv st) (hlt : e < st.ents.length)
-    (hg : PathGuard cfg st e s fv) :
-    Tr (fun st' => st' = st) (sideSet cfg n e s fv) (fun _ st' => Inv st' ∧ st'.ents.length = st.ents.length)
-      (fun st' => Inv st' ∧ st'.ents.length = st.ents.length) := by
-  cases hfv : fv with
-  | oid v =>
-    refine (sideSet_oid_tr cfg n noX e s v st).conseq ?_ ?_ (fun _ h => h.elim)
-    · rintro st' rfl; exact ⟨rfl, hi.1, hi.2, hlt⟩
-    · intro _ st' ⟨h1, h2, h3⟩; exact ⟨⟨h1, h2⟩, h3.1⟩
-  | changed v =>
-    refine (sideSet_changed_tr cfg n noX e s v st).conseq ?_ ?_ (fun _ h => h.elim)
-    · rintro st' rfl; exact ⟨rfl, hi.1, hi.2, hlt⟩
-    · intro _ st' ⟨h1, h2, h3⟩; exact ⟨⟨h1, h2⟩, h3.len⟩
-  | path v =>
-    subst hfv
-    by_cases hleaf : (st.side e s).otype ≠ .dir ∨ (st.side e s).path = none
-    · exact (sideSet_path_leaf_tr cfg n e s v st hi hlt hleaf).conseq (fun _ h => h) (fun _ _ h => ⟨h.1, h.2.1⟩) (fun _ h => ⟨h.1, h.2.1⟩)
-    · have hdir : (st.side e s).otype = .dir := Decidable.not_not.mp (fun h => hleaf (Or.inl h))
-      cases hpr : (st.side e s).path with
-      | none => exact absurd (Or.inr hpr) hleaf
-      | some pr =>
-        cases n with
-        | zero => rintro st' rfl; exact ⟨fun a ha => (by cases ha), fun x hx hne => by cases hx; exact absurd rfl hne⟩
-        | succ n =>
-          refine (sideSet_path_gen cfg n e s v st (fun st' => st'.ents.length = st.ents.length) hi hlt rfl
-            (fun _ _ => by simp [pathFin, len_popPrior]) (fun _ _ h _ => by simpa [pathFin] using h)
-            (fun _ _ h hrel => hrel.len.trans h) ?_).conseq (fun _ h => h) (fun _ _ h => h) (fun _ h => h)
-          intro c p hv ho hp
-          have hlv : Leaves cfg st s e pr := hg (by rw [hv]; rfl) hdir pr hpr
+/-- `_update_kids` (fix C): the folder is on the stack while its kids are moved -/
+theorem updateKids_tr (cfg : Cfg) (n : Nat) (hG : Good cfg n) (s : Sd) (e : Nat) (prior : Option Path.Str) (pth : Path.Str) (st4 : St)
+    (hi4 : Inv st4) :
+    Tr (fun st => st = st4) (updateKids (sideSet cfg n) cfg s e prior pth)
+      (fun _ st5 => Inv st5 ∧ st5.ents.length = st4.ents.length ∧ st5.moving = st4.moving ∧ KeepPaths (e :: st4.moving) st4 st5)
+      (fun st5 => Inv st5 ∧ st5.ents.length = st4.ents.length ∧ st5.moving = st4.moving ∧ KeepPaths (e :: st4.moving) st4 st5) := by
+  unfold updateKids
+  have hpop : ∀ st', KidsJ st4.ents.length (e :: st4.moving) { st4 with moving := e :: st4.moving } st' →
+      Inv { st' with moving := st'.moving.tail } ∧ ({ st' with moving := st'.moving.tail } : St).ents.length = st4.ents.length ∧
+      ({ st' with moving := st'.moving.tail } : St).moving = st4.moving ∧
+      KeepPaths (e :: st4.moving) st4 { st' with moving := st'.moving.tail } := by
+    rintro st' ⟨h1, h2, h3, h4⟩
+    exact ⟨inv_setMoving h1 _, h2, by simp [h3], fun m hm s' => h4 m hm s'⟩
+  refine Tr.finally_ (Q0 := fun _ => KidsJ st4.ents.length (e :: st4.moving) { st4 with moving := e :: st4.moving })
+    (E0 := KidsJ st4.ents.length (e :: st4.moving) { st4 with moving := e :: st4.moving }) ?_ (fun _ st' h => hpop st' h) hpop
+  refine Tr.bind (R := fun _ => KidsJ st4.ents.length (e :: st4.moving) { st4 with moving := e :: st4.moving }) ?_ (fun _ => ?_)
+  · apply Tr.modify
+    rintro st rfl
+    exact ⟨inv_setMoving hi4 _, rfl, rfl, KeepPaths.refl _ _⟩
+  · unfold updateKidsOf
+    apply Tr.getSt_bind; intro st1
+    cases prior with
+    | none => exact Tr.pure (fun _ h => h.2)
+    | some pr =>
+      simp only
+      apply Tr.when
+      · intro _; exact (kidsLoop_tr cfg n hG s pr pth _ _ _ _).pre (fun _ h => h.2)
+      · exact fun _ _ h => h.2
+
+/-- every hooked assignment, at every recursion depth: by induction on the fuel -/
+theorem good_all (cfg : Cfg) : ∀ n, Good cfg n
+  | 0 => by
+    rintro e s fv st _ _ _ st' rfl
+    exact ⟨fun a ha => (by cases ha), fun x hx hne => by cases hx; exact absurd rfl hne⟩
+  | n + 1 => by
+    have hG := good_all cfg n
+    intro e s fv st hi hlt hm
+    have hkeepF : ∀ {t st'}, Frame t st st' → (∀ e' s', t = some (e', s') → e' = e) → KeepPaths st.moving st st' :=
+      fun hf ht => hf.keep _ (fun e' s' h hmem => hm ((ht e' s' h) ▸ hmem))
+    cases hfv : fv with
+    | oid v =>
+      refine (sideSet_oid_tr cfg (n + 1) noX e s v st).conseq ?_ ?_ (fun _ h => h.elim)
+      · rintro st' rfl; exact ⟨rfl, hi.1, hi.2, hlt⟩
+      · intro _ st' ⟨h1, h2, h3⟩; exact ⟨⟨h1, h2⟩, h3.1, hkeepF h3 (fun _ _ h => by cases h)⟩
+    | changed v =>
+      refine (sideSet_changed_tr cfg (n + 1) noX e s v st).conseq ?_ ?_ (fun _ h => h.elim)
+      · rintro st' rfl; exact ⟨rfl, hi.1, hi.2, hlt⟩
+      · intro _ st' ⟨h1, h2, h3⟩; exact ⟨⟨h1, h2⟩, h3.len, hkeepF h3.frame (fun _ _ h => by cases h)⟩
+    | path v =>
+      by_cases hleaf : (st.side e s).otype ≠ .dir ∨ (st.side e s).path = none
+      · refine (sideSet_path_leaf_tr cfg (n + 1) e s v st hi hlt hleaf).conseq (fun _ h => h) ?_ ?_
+        · intro _ st' h; exact ⟨h.1, h.2.1, hkeepF h.2 (fun e' s' h' => by cases h'; rfl)⟩
+        · intro st' h; exact ⟨h.1, h.2.1, hkeepF h.2 (fun e' s' h' => by cases h'; rfl)⟩
+      · have hfr0 : Frame (some (e, s)) st (popPrior st s e) :=
+          (Frame.of_sides (len_popPrior ..) (fun i s' => by rw [side_popPrior]; exact ⟨rfl, rfl⟩)).weaken
+        have hte : ∀ e' s', some (e, s) = some (e', s') → e' = e := fun e' s' h => by cases h; rfl
+        refine (sideSet_path_gen cfg n e s v st
+          (fun st' => st'.ents.length = st.ents.length ∧ st'.moving = st.moving ∧ KeepPaths st.moving st st') hi hlt
+          ⟨rfl, rfl, KeepPaths.refl _ _⟩ ?_ ?_ ?_ ?_).conseq (fun _ h => h) (fun _ _ h => ⟨h.1, h.2.1, h.2.2.2⟩)
+          (fun _ h => ⟨h.1, h.2.1, h.2.2.2⟩)
+        · intro w _
+          exact ⟨by simp [pathFin, len_popPrior], by simp, hkeepF (hfr0.trans (frame_pathFin ..)) hte⟩
+        · rintro st6 w ⟨h1, h2, h3⟩ _
+          refine ⟨by simpa [pathFin] using h1, by simpa using h2, h3.trans ?_⟩
+          exact (frame_pathFin st6 e s w).keep _ (fun e' s' h hmem => hm (by cases h; exact hmem))
+        · rintro st5 st6 ⟨h1, h2, h3⟩ hrel
+          exact ⟨hrel.len.trans h1, hrel.mov.trans h2, h3.trans (hrel.frame.keep _ (fun _ _ h => by cases h))⟩
+        · intro c p _ ho hp
           obtain ⟨hinv4, hfr4, hp4⟩ := Inv.putPath hi.1 hi.2 s e (c :: p) rfl ho hp hlt
-          have hj4 : KidsJ cfg s e pr (c :: p) st.ents.length (putPath (popPrior st s e) s e (c :: p)) :=
-            ⟨hinv4, ⟨hfr4.1, by rw [hfr4.1]; exact hlt⟩, hp4, hlv.frame hfr4 (fun d hd => by cases hd; exact Or.inl rfl)⟩
-          unfold updateKids
-          apply Tr.getSt_bind; intro st4
-          rw [hpr]
-          simp only
-          apply Tr.when
-          · intro _
-            refine (kidsLoop_tr cfg n s e pr (c :: p) st.ents.length _).conseq ?_ ?_ ?_
-            · rintro st' ⟨h0, h1⟩; rw [h0] at h1; rw [h1] at h0; subst h0; exact hj4
-            · intro _ st5 ⟨h1, h2, h3, _⟩; exact ⟨h1, h2.2, h3, h2.1⟩
-            · intro st5 ⟨h1, h2, _⟩; exact ⟨h1, h2.1⟩
-          · rintro _ st' ⟨h0, h1⟩
-            rw [h0] at h1; rw [h0, h1]
-            exact ⟨hinv4, by rw [hfr4.1]; exact hlt, hp4, hfr4.1⟩
-  | exists_ v => exact (sideSet_plain_tr cfg n e s _ rfl st).conseq (fun _ h => h) (fun _ _ h => ⟨h.inv hi, h.len⟩) (fun _ h => h.elim)
-  | hash v => exact (sideSet_plain_tr cfg n e s _ rfl st).conseq (fun _ h => h) (fun _ _ h => ⟨h.inv hi, h.len⟩) (fun _ h => h.elim)
-  | syncHash v => exact (sideSet_plain_tr cfg n e s _ rfl st).conseq (fun _ h => h) (fun _ _ h => ⟨h.inv hi, h.len⟩) (fun _ h => h.elim)
-  | syncPath v => exact (sideSet_plain_tr cfg n e s _ rfl st).conseq (fun _ h => h) (fun _ _ h => ⟨h.inv hi, h.len⟩) (fun _ h => h.elim)
-  | otype v => exact (sideSet_plain_tr cfg n e s _ rfl st).conseq (fun _ h => h) (fun _ _ h => ⟨h.inv hi, h.len⟩) (fun _ h => h.elim)
-  | size v => exact (sideSet_plain_tr cfg n e s _ rfl st).conseq (fun _ h => h) (fun _ _ h => ⟨h.inv hi, h.len⟩) (fun _ h => h.elim)
-  | mtime v => exact (sideSet_plain_tr cfg n e s _ rfl st).conseq (fun _ h => h) (fun _ _ h => ⟨h.inv hi, h.len⟩) (fun _ h => h.elim)
+          refine (updateKids_tr cfg n hG s e (st.side e s).path (c :: p) _ hinv4).conseq (fun _ h => h) ?_ ?_
+          · rintro _ st5 ⟨h1, h2, h3, h4⟩
+            have hmv : st5.moving = st.moving := by rw [h3]; simp
+            refine ⟨h1, by rw [h2, hfr4.1]; exact hlt, ?_, h2.trans hfr4.1, hmv, ?_⟩
+            · rw [h4 e (List.mem_cons_self ..) s]; exact hp4
+            · refine (hkeepF hfr4 hte).trans (h4.mono (fun m hmem => List.mem_cons_of_mem _ (by simpa using hmem)))
+          · rintro st5 ⟨h1, h2, h3, h4⟩
+            have hmv : st5.moving = st.moving := by rw [h3]; simp
+            exact ⟨h1, h2.trans hfr4.1, hmv, (hkeepF hfr4 hte).trans (h4.mono (fun m hmem => List.mem_cons_of_mem _ (by simpa using hmem)))⟩
+    | exists_ v => exact (sideSet_plain_tr cfg (n + 1) e s _ rfl st).conseq (fun _ h => h) (fun _ _ h => ⟨h.inv hi, h.len, fun m _ s' => (h.fields m s').2.1⟩) (fun _ h => h.elim)
+    | hash v => exact (sideSet_plain_tr cfg (n + 1) e s _ rfl st).conseq (fun _ h => h) (fun _ _ h => ⟨h.inv hi, h.len, fun m _ s' => (h.fields m s').2.1⟩) (fun _ h => h.elim)
+    | syncHash v => exact (sideSet_plain_tr cfg (n + 1) e s _ rfl st).conseq (fun _ h => h) (fun _ _ h => ⟨h.inv hi, h.len, fun m _ s' => (h.fields m s').2.1⟩) (fun _ h => h.elim)
+    | syncPath v => exact (sideSet_plain_tr cfg (n + 1) e s _ rfl st).conseq (fun _ h => h) (fun _ _ h => ⟨h.inv hi, h.len, fun m _ s' => (h.fields m s').2.1⟩) (fun _ h => h.elim)
+    | otype v => exact (sideSet_plain_tr cfg (n + 1) e s _ rfl st).conseq (fun _ h => h) (fun _ _ h => ⟨h.inv hi, h.len, fun m _ s' => (h.fields m s').2.1⟩) (fun _ h => h.elim)
+    | size v => exact (sideSet_plain_tr cfg (n + 1) e s _ rfl st).conseq (fun _ h => h) (fun _ _ h => ⟨h.inv hi, h.len, fun m _ s' => (h.fields m s').2.1⟩) (fun _ h => h.elim)
+    | mtime v => exact (sideSet_plain_tr cfg (n + 1) e s _ rfl st).conseq (fun _ h => h) (fun _ _ h => ⟨h.inv hi, h.len, fun m _ s' => (h.fields m s').2.1⟩) (fun _ h => h.elim)
+
+/-- `ent[side].<attr> = v` keeps the invariant: on a normal return and on every exception except fuel exhaustion (no guard) -/
+theorem sideSet_inv (cfg : Cfg) (n : Nat) (e : Nat) (s : Sd) (fv : FV) (st : St) (hi : Inv st) (hlt : e < st.ents.length)
+    (hm : e ∉ st.moving) :
+    Tr (fun st' => st' = st) (sideSet cfg n e s fv) (fun _ st' => Inv st' ∧ st'.ents.length = st.ents.length)
+      (fun st' => Inv st' ∧ st'.ents.length = st.ents.length) :=
+  (good_all cfg n e s fv st hi hlt hm).conseq (fun _ h => h) (fun _ _ h => ⟨h.1, h.2.1⟩) (fun _ h => ⟨h.1, h.2.1⟩)
 
 end CS.State
